@@ -319,6 +319,16 @@ Fixpoint m_create (fo : fops) (n : node) (segs : list seg) (v : node) : rc * nod
     end
   end.
 
+(* textual prefix of pointers; `seg_nested f p`: one pointer is a proper prefix of the other - a location and a part of itself *)
+Fixpoint is_prefix (a b : list seg) : bool :=
+  match a, b with
+  | [], _ => true
+  | x :: a', y :: b' => bytes_eqb x y && is_prefix a' b'
+  | _, _ => false
+  end.
+Definition seg_nested (f p : list seg) : bool :=
+  negb (Nat.eqb (length f) (length p)) && (is_prefix f p || is_prefix p f).
+
 Record pop := { p_op : opk; p_path : list seg; p_from : option (list seg); p_val : option node }.
 
 Definition is_root (p : list seg) : bool := match p with [] => true | [[]] => true | _ => false end.
@@ -401,8 +411,10 @@ Definition swap_target (t : node) (path : list seg) : option (list nat * option 
   | _, _ => None
   end.
 
-(* _jbl_target_apply_patch *)
-Definition apply_op (fo : fops) (t : node) (o : pop) : rc * node :=
+(* _jbl_target_apply_patch.  `old = true` is the code before 22df63c / da6f72b (move and copy onto the root ignored with rc 0; swap
+   of a location with a part of itself carried out, data lost) and before ca7f178 the root took over the whole struct of the value:
+   kept for the theorems that state what was wrong (C15_root_move_copy_refuted, C15_swap_nested_refuted). *)
+Definition apply_op_v (old : bool) (fo : fops) (t : node) (o : pop) : rc * node :=
   let k := p_op o in
   let path := p_path o in
   if op_eqb k OSwap && (match p_from o with Some [] => true | _ => false end) then (RcPatchInvalid, t)   (* fixed *)
@@ -418,7 +430,14 @@ Definition apply_op (fo : fops) (t : node) (o : pop) : rc * node :=
   else if is_root path then
     if op_eqb k ORemove then (RcOk, zero_node)
     else if op_eqb k OReplace || op_eqb k OAdd || op_eqb k OAddCreate then
-      match p_val o with None => (RcNoValue, t) | Some v => (RcOk, v) end        (* memmove(target, value, sizeof) *)
+      match p_val o with None => (RcNoValue, t) | Some v => (RcOk, copy_data t v) end      (* _jbl_copy_node_data(target, value) *)
+    else if (op_eqb k OMove || op_eqb k OCopy) && negb old then
+      (* rfc6902 4.4, 4.5 onto the whole document: the value at `from` becomes the document ("" = the document onto itself) *)
+      match p_from o with
+      | None => (RcPatchInvalid, t)
+      | Some [] => (RcOk, t)
+      | Some f => match m_find t f with None => (RcNotFound, t) | Some v => (RcOk, copy_data t v) end
+      end
     else (RcOk, t)
   else
     match (if op_eqb k ORemove || op_eqb k OReplace then
@@ -443,6 +462,8 @@ Definition apply_op (fo : fops) (t : node) (o : pop) : rc * node :=
         match p_from o with
         | None => (RcNotFound, t1)
         | Some f =>
+          if negb old && seg_nested f path then (RcPatchInvalid, t1)     (* a location cannot change places with a part of itself *)
+          else
           match m_find t1 f, m_locate t1 f with
           | Some v, Some pf =>
             match swap_target t1 path with
@@ -484,6 +505,8 @@ Definition apply_op (fo : fops) (t : node) (o : pop) : rc * node :=
         | Some v => put_or_create fo k t1 path v
         end
     end.
+
+Definition apply_op (fo : fops) (t : node) (o : pop) : rc * node := apply_op_v false fo t o.
 
 (* _jbl_ptr_pool: "" -> no segments; must start with '/'; a trailing '/' (len > 1) is rejected; ~0 ~1 unescaped.
    "~" followed by anything else is JBL_ERROR_JSON_POINTER (4d9b497; ptr_segs = None). *)
@@ -600,7 +623,8 @@ Fixpoint decode_ops (l : list node) : rc + list rawop :=
               | inr o => match decode_ops r with inl e => inl e | inr os => inr (o :: os) end
               end
   end.
-Definition create_patch (p : node) : rc + list rawop :=
+(* `prefix = true`: the decoder before 63ac2d6 (strncmp over the member's / the value's length) *)
+Definition create_patch_prefix (p : node) : rc + list rawop :=
   if forallb (fun n => ty_eqb (n_ty n) TObj) (n_ch p) then decode_ops (n_ch p) else inl RcPatchInvalid.
 
 (* exact decoding (what rfc6902 means by the members "op", "path", "from", "value"); used by the struct entry points
@@ -642,6 +666,21 @@ Fixpoint decode_ops_exact (l : list node) : rc + list rawop :=
               | inr o => match decode_ops_exact r with inl e => inl e | inr os => inr (o :: os) end
               end
   end.
+
+(* _jbl_create_patch (63ac2d6): every element must be an object (checked for all of them first); member and operation names are
+   compared exactly, members that are no "op" / "path" / "from" / "value" are ignored *)
+Fixpoint decode_ops_x (l : list node) : rc + list rawop :=
+  match l with
+  | [] => inr []
+  | n :: r => match decode_members_exact (n_ch n) empty_rawop with
+              | inl e => inl e
+              | inr o => match decode_ops_x r with inl e => inl e | inr os => inr (o :: os) end
+              end
+  end.
+Definition create_patch_v (prefix : bool) (p : node) : rc + list rawop :=
+  if prefix then create_patch_prefix p
+  else if forallb (fun n => ty_eqb (n_ty n) TObj) (n_ch p) then decode_ops_x (n_ch p) else inl RcPatchInvalid.
+Definition create_patch (p : node) : rc + list rawop := create_patch_v false p.
 
 (* _jbl_patch / jbl_patch: the binary document `b` is converted to a tree, the tree is patched, and only a fully
    successful result is converted back and swapped in.  `B` is the binary form; `dec`/`enc` are _jbl_node_from_binn
